@@ -122,12 +122,28 @@ def fill_components(rng, ds, coords=None, dask=False):
     v = rand_floats(rng, ds.shape, p_special=0.25)
     w = injective_floats(rng, ds.shape)
     i = rand_ints(rng, ds.shape)
-    d.add_component(v, "v")
-    d.add_component(w, "w")
-    d.add_component(i, "i")
+    ds.layouts = []
+
+    def lay(arr):
+        out, name = relayout(rng, arr)
+        ds.layouts.append(name)
+        return out
+    d.add_component(lay(v), "v")
+    d.add_component(lay(w), "w")
+    d.add_component(lay(i), "i")
     d.add_component_link(d.id["w"] * 2 + d.id["v"], "der")
     ds.arrays = {"v": v, "w": w, "i": i.astype(float), "der": w * 2 + v}
     ds.atts = ["v", "w", "i", "der"]
+    # dtype variants of the stored component (the buffer is float whatever the storage)
+    extra = {"u8": rand_ints(rng, ds.shape, 0, 255).astype(np.uint8), "i1": rand_ints(rng, ds.shape, -128, 127).astype(np.int8),
+             "f4": rand_floats(rng, ds.shape, p_special=0.2).astype(np.float32), "be": (w * 1e-10 + 7).astype(">f8"),
+             "big": (w * 1e12).astype(float),
+             "bc": np.broadcast_to(injective_floats(rng, ds.shape[-1:]), ds.shape)}      # stride-0, read-only
+    for name in rng.sample(sorted(extra), 3):
+        arr = extra[name]
+        d.add_component(arr if name == "bc" else lay(arr), name)
+        ds.arrays[name] = np.array(arr, dtype=float)
+        ds.atts.append(name)
     if dask:
         import dask.array as da
         from glue.core.component import DaskComponent
@@ -138,6 +154,22 @@ def fill_components(rng, ds, coords=None, dask=False):
         ds.dask = True
     ds.data = d
     return d
+
+
+def relayout(rng, arr):
+    """The same values in a different memory layout."""
+    kind = rng.choice(["c", "c", "fortran", "strided", "reversed", "transposed_copy"])
+    if kind == "fortran":
+        return np.asfortranarray(arr), kind
+    if kind == "strided":
+        big = np.zeros((arr.shape[0] * 2,) + arr.shape[1:], dtype=arr.dtype)
+        big[::2] = arr
+        return big[::2], kind
+    if kind == "reversed":
+        return arr[::-1].copy()[::-1], kind
+    if kind == "transposed_copy":
+        return arr.T.copy().T, kind
+    return arr, "c"
 
 
 def backward_slice(rng, n):
@@ -196,7 +228,18 @@ def make_states(rng, ds, world=None):
         ("or_not", (d.id["i"] >= 2) | ~(d.id["w"] > t1), lambda a, t1=t1: (a["i"] >= 2) | ~(a["w"] > t1)),
         ("range", RangeSubsetState(lo, hi, att=d.id["w"]), lambda a, lo=lo, hi=hi: (a["w"] >= lo) & (a["w"] <= hi)),
         ("pixel", d.pixel_component_ids[j] >= k, lambda a, pix=pix, k=k: pix >= k),
+        ("selects_nothing", d.id["w"] > wv[-1] + 1.0, lambda a, t=wv[-1] + 1.0: a["w"] > t),
+        ("selects_all", d.id["w"] >= wv[0] - 1.0, lambda a, t=wv[0] - 1.0: a["w"] >= t),
     ]
+    # a selection defined on the *master's* pixel axis, evaluated on this linked dataset through the inverse link
+    if world is not None and world.mode in ("axis", "chain") and ds.name != "T" and ds.axis is not None:
+        T = world.ds["T"]
+        j2 = rng.randrange(ds.ndim)
+        k2, a2, b2 = ds.axis[j2]
+        idx = np.indices(ds.shape)[j2].astype(float)
+        upos = (idx - b2) / a2
+        cut = float(np.floor(np.median(upos))) + 0.37      # never equal to a linked position
+        out.append(("pixel_of_linked_master", T.data.pixel_component_ids[k2] >= cut, lambda a, m=(upos >= cut): m))
     # selections by array slices that run backwards, defined on the dataset itself ...
     from glue.viewers.image.pixel_selection_subset_state import PixelSubsetState
     sl = backward_slices(rng, ds.shape)
@@ -219,6 +262,7 @@ def make_states(rng, ds, world=None):
 
 class World(object):
     def __init__(self):
+        self.eps = EPS          # half-width of the tie band, relative to the magnitudes the linked position goes through
         self.mode = None
         self.ds = {}
         self.dc = None
@@ -296,19 +340,36 @@ def build_world(rng, viewer=False):
     A, B = None, None
     links = []
     descr = {"mode": mode, "T": list(T.shape)}
-    with_dask = (not viewer) and rng.random() < 0.15
+    with_dask = rng.random() < 0.15
+    big = (not viewer) and mode in ("axis", "chain") and rng.random() < 0.06
+    if big:
+        ndT = rng.choice([1, 2])
+        T = DS("T", rshape(rng, ndT, 20, 150) if ndT == 1 else rshape(rng, ndT, 8, 30))
+        T.M, T.c = np.eye(ndT), np.zeros(ndT)
+        T.axis = [(k, 1.0, 0.0) for k in range(ndT)]
+        descr = {"mode": mode, "T": list(T.shape), "big": True}
 
     if mode == "world":
         kinds = ["diagonal", "coupled_symmetric", "full"]
         kT = rng.choice(kinds)
         Mt = affine_matrix(rng, ndT, kT)
+        unit = rng.choice([1.0, 1.0, 1e-6, 1e3, 1e-10])     # world units: the same physical frame in other units / origin
+        origin = rng.choice([0.0, 0.0, 1e4])
+
+        def rescale(M):
+            M = M.copy()
+            M[:ndT, ndT] += origin
+            M[:ndT, :] *= unit
+            return M
+        Mt = rescale(Mt)
+        descr["world_unit"], descr["world_origin"] = unit, origin
         fill_components(rng, T, coords=AffineCoordinates(Mt))
         descr["T_matrix"] = Mt.tolist()
         srcs = []
         for name in ("A", "B"):
             X = DS(name, rshape(rng, ndT, minlen))
             kX = rng.choice(kinds)
-            Mx = affine_matrix(rng, ndT, kX)
+            Mx = rescale(affine_matrix(rng, ndT, kX))
             H = np.linalg.solve(Mx, Mt)
             X.M = H[:ndT, :ndT][::-1, ::-1].copy()
             X.c = H[:ndT, ndT][::-1].copy()
@@ -328,6 +389,10 @@ def build_world(rng, viewer=False):
             else:
                 nX = rng.randint(1, parent.ndim)
             shape = rshape(rng, nX, minlen)
+            if dask:
+                shape = rshape(rng, nX, 3, 7)      # room for requests strictly inside (sub-region offset > 0)
+            if big:
+                shape = rshape(rng, nX, 20, 150) if nX == 1 else rshape(rng, nX, 8, 30)
             if same_shape_as is not None and same_shape_as.ndim == nX and rng.random() < 0.5:
                 shape = same_shape_as.shape
             aligned = rng.random() < 0.3          # every axis an identity link: a pixel-aligned (maybe permuted) dataset
@@ -347,6 +412,12 @@ def build_world(rng, viewer=False):
                     a, b = 1.0, 0.0
                 if a < 0 and rng.random() < 0.7:
                     b = float(shape[j] - 1)      # a flip that stays inside the array
+                if parent is T and not aligned and rng.random() < 0.12:
+                    # magnitudes: the source sits at master coordinates around U0 (1e5 .. 1e9) with pixels 1e-6 .. 1e3 wide
+                    a, U0 = rng.choice([(1e-3, 1e6), (1e-3, 1e9), (1e3, 1e6), (1e3, -2.5e5), (1e-6, 1e9), (0.5, -3e7)])
+                    b = -(a * U0)
+                    w.eps = max(w.eps, 1e-14 * abs(b))
+                    descr["far_axes"] = descr.get("far_axes", 0) + 1
                 i = perm[j]
                 pk, pa, pb = parent.axis[i]
                 X.axis.append((pk, a * pa, a * pb + b))
@@ -360,6 +431,8 @@ def build_world(rng, viewer=False):
                     links.append(LinkTwoWay(pc, xc, Lin(a, b), LinInv(a, b)))
                     spec.append([i, a, b])
             descr[name] = {"shape": list(shape), "parent": parent.name, "axes": spec}
+            X.parent = parent.name
+            X.links = links[-nX:]
             if all(sp[1] == "same" for sp in spec):
                 X.aligned[parent.name] = list(perm)
                 descr[name]["pixel_aligned_with"] = parent.name
@@ -423,11 +496,12 @@ def positions(bound):
     return np.array([float(bound)])
 
 
-def resample(full, dpos, shape, blank):
+def resample(full, dpos, shape, blank, eps=EPS):
     """All acceptable nearest-pixel buffers (one per way of resolving near-ties) and the mask of samples outside."""
     nD = len(shape)
-    ups = [np.floor(p + 0.5 + EPS).astype(int) for p in dpos]
-    dns = [np.ceil(p - 0.5 - EPS).astype(int) for p in dpos]
+    dpos = [np.clip(p, -1e15, 1e15) for p in dpos]
+    ups = [np.floor(p + 0.5 + eps).astype(np.int64) for p in dpos]
+    dns = [np.ceil(p - 0.5 - eps).astype(np.int64) for p in dpos]
     tie_axes = [j for j in range(nD) if np.any(ups[j] != dns[j])]
     variants = []
     outside0 = None
@@ -473,15 +547,16 @@ def expected(world, req):
         full = D.states[req["what"][1]][2](D.arrays).astype(float)
         blank = 0.0
     dpos = [np.broadcast_to(p, grid[0].shape) for p in dpos]
-    variants, outside = resample(full, dpos, D.shape, blank)
+    variants, outside = resample(full, dpos, D.shape, blank, world.eps)
     drop = tuple(slice(None) if isinstance(b, tuple) else 0 for b in bounds)
     variants = [v[drop] for v in variants]
     outside = outside[drop]
     contrib = world.contributing(G, D)
     may_raise = (not req["broadcast"]) and (G is not D) and any(
         isinstance(b, tuple) and i not in contrib for i, b in enumerate(bounds))
+    first_positive = bool(outside.size) and not outside.any() and all(float(np.min(p)) >= 0.6 for p in dpos)
     return {"kind": "array", "variants": variants, "outside": outside, "may_raise_incompatible": may_raise,
-            "ties": len(variants) > 1}
+            "ties": len(variants) > 1, "first_index_positive": first_positive}
 
 
 # ---------------------------------------------------------------- requests
@@ -520,6 +595,47 @@ def rand_bound(rng, n, p_scalar=0.4):
     return rand_scalar(rng, n) if rng.random() < p_scalar else rand_range(rng, n)
 
 
+def inside_range(rng, n):
+    """A range whose samples all fall strictly inside a source axis of length n >= 3 (first index >= 1)."""
+    lo = rng.randint(1, n - 2)
+    hi = rng.randint(lo, n - 2)
+    return (lo, hi, hi - lo + 1) if rng.random() < 0.7 else (float(lo), float(hi), rng.randint(1, 5))
+
+
+def axis_to_source(world, G, D, i):
+    """(a, b, n): the D axis that follows dimension i of G, as position = a * g + b; None when there is no such axis."""
+    if G is D:
+        return 1.0, 0.0, D.shape[i]
+    if G is world.ds["T"] and D.axis is not None and world.mode in ("axis", "chain"):
+        for j, (k, a, b) in enumerate(D.axis):
+            if k == i:
+                return a, b, D.shape[j]
+    return None
+
+
+def to_target(bound, a, b):
+    if isinstance(bound, tuple):
+        return ((bound[0] - b) / a, (bound[1] - b) / a, bound[2])
+    return (float(bound) - b) / a
+
+
+def gen_bound(rng, world, G, D, i, want=None):
+    """A bound for dimension i of G: generic, or aimed at the source (drawn in the source's index space and mapped back
+    through the known link - this is what reaches far-away / strictly-inside positions)."""
+    n = G.shape[i]
+    m = axis_to_source(world, G, D, i)
+    scalar = (rng.random() < 0.4) if want is None else (want == "scalar")
+    if m is not None:
+        a, b, ns = m
+        far = abs(b) > 1e3 or abs(a) > 100 or abs(a) < 0.01
+        if D.dask and ns >= 3 and not scalar and rng.random() < 0.7:
+            return to_target(inside_range(rng, ns), a, b)
+        if far and rng.random() < 0.85 or ((a, b) != (1.0, 0.0) and rng.random() < 0.2):
+            src = rand_scalar(rng, ns) if scalar else rand_range(rng, ns)
+            return to_target(src, a, b)
+    return rand_scalar(rng, n) if scalar else rand_range(rng, n)
+
+
 def rand_what(rng, D):
     if rng.random() < 0.55:
         return ("att", rng.choice(D.atts))
@@ -536,7 +652,7 @@ def fresh_request(rng, world):
     else:
         tname = rng.choice(["A", "B", "T"])
     D, G = world.ds[dname], world.ds[tname]
-    return {"data": dname, "target": tname, "bounds": [rand_bound(rng, n) for n in G.shape],
+    return {"data": dname, "target": tname, "bounds": [gen_bound(rng, world, G, D, i) for i in range(G.ndim)],
             "what": rand_what(rng, D), "broadcast": rng.random() < 0.75}
 
 
@@ -558,7 +674,7 @@ def mutate_request(rng, world, prev):
                            "broadcast"])
         if kind == "scalar" and scal:
             i = rng.choice(scal)
-            new = rand_scalar(rng, G.shape[i])
+            new = gen_bound(rng, world, G, D, i, "scalar")
             if same_scalar_class(new, req["bounds"][i]):
                 continue
             req["bounds"][i] = new
@@ -568,25 +684,25 @@ def mutate_request(rng, world, prev):
             if not free:
                 continue
             i = rng.choice(free)
-            new = rand_scalar(rng, G.shape[i])
+            new = gen_bound(rng, world, G, D, i, "scalar")
             if same_scalar_class(new, req["bounds"][i]):
                 continue
             req["bounds"][i] = new
             return req, "scalar_noncontributing"
         if kind == "range" and rang:
             i = rng.choice(rang)
-            new = rand_range(rng, G.shape[i])
+            new = gen_bound(rng, world, G, D, i, "range")
             if new == req["bounds"][i]:
                 continue
             req["bounds"][i] = new
             return req, ("range_contributing" if i in contrib else "range_noncontributing")
         if kind == "to_range" and scal:
             i = rng.choice(scal)
-            req["bounds"][i] = rand_range(rng, G.shape[i])
+            req["bounds"][i] = gen_bound(rng, world, G, D, i, "range")
             return req, "scalar_to_range"
         if kind == "to_scalar" and rang:
             i = rng.choice(rang)
-            req["bounds"][i] = rand_scalar(rng, G.shape[i])
+            req["bounds"][i] = gen_bound(rng, world, G, D, i, "scalar")
             return req, "range_to_scalar"
         if kind == "attribute" and req["what"][0] == "att":
             new = rng.choice(D.atts)
@@ -695,7 +811,7 @@ def base_sig(world, req, cached, step):
     if req["what"][0] == "state":
         selection = "backward_slices" if "backward" in D.states[req["what"][1]][0] else "other"
     return {"request": "attribute" if req["what"][0] == "att" else "mask", "cached": cached, "link_mode": world.mode,
-            "selection": selection,
+            "selection": selection, "links_changed_under_id": bool(getattr(world, "links_changed", False)),
             "dask_path": bool(dask_path), "self_target": req["data"] == req["target"],
             "after": step if cached else None}
 
@@ -733,6 +849,15 @@ def judge(ctx, world, req, exp, out, cached, step, clash=False):
     ctx.count("compared_%s_%s" % (sig["request"], world.mode))
     if exp["may_raise_incompatible"]:
         ctx.count("broadcast_false_noncontributing_range_returned_array")
+    if not cached:
+        o = exp["outside"]
+        ctx.count("samples_%s" % ("all_outside" if o.all() else ("partly_outside" if o.any() else "all_inside")))
+        if any(abs(float(x)) > 1e4 for b in req["bounds"] for x in (b[:2] if isinstance(b, tuple) else (b,))):
+            ctx.count("requests_with_bounds_beyond_1e4")
+        if sig["dask_path"] and exp["first_index_positive"]:
+            ctx.count("dask_requests_strictly_inside_first_index_positive")
+        if max(world.ds[req["data"]].shape) >= 20:
+            ctx.count("requests_on_sources_of_20_or_more_per_axis")
     if got.shape != v0.shape:
         sig.update(kind="shape_mismatch", got_ndim=got.ndim, expected_ndim=v0.ndim)
         ctx.violation(sig, detail(got_shape=list(got.shape), expected_shape=list(v0.shape)))
@@ -774,9 +899,155 @@ def cache_probe(cache_id):
         return None
 
 
+RUN_KINDS = ["attribute", "scalar", "scalar", "broadcast", "state", "nudge", "type_only"]
+FAULTS = ["nsteps_zero", "both_arguments", "neither_argument", "short_bounds", "foreign_attribute"]
+
+
+def copy_req(req):
+    out = dict(req)
+    out["bounds"] = list(req["bounds"])
+    return out
+
+
+def same_value_other_type(rng, b):
+    v = float(b)
+    cands = [float(v), np.float64(v), np.float32(v) if float(np.float32(v)) == v else float(v)]
+    if v.is_integer() and abs(v) < 2 ** 31:
+        cands += [int(v), np.int64(int(v)), np.int32(int(v))]
+    cands = [c for c in cands if type(c) is not type(b)]
+    return rng.choice(cands) if cands else None
+
+
+def forced_mutation(rng, world, prev, kind, memo):
+    """One step of a run: only the named aspect of the previous request changes (None when that is impossible)."""
+    req = copy_req(prev)
+    D, G = world.ds[req["data"]], world.ds[req["target"]]
+    contrib = world.contributing(G, D)
+    scal = [i for i, b in enumerate(req["bounds"]) if not isinstance(b, tuple)]
+    if kind == "attribute":
+        if req["what"][0] != "att":
+            return None
+        req["what"] = ("att", rng.choice([x for x in D.atts if x != req["what"][1]]))
+        return req, "attribute"
+    if kind == "state":
+        if req["what"][0] != "state" or len(D.states) < 2:
+            return None
+        if rng.random() < 0.3 and len(D.states) < 20:
+            # an equal-looking but new selection object that lives only for this request chain
+            t = rng.choice(sorted(D.arrays["w"].ravel().tolist()))
+            D.states.append(("fresh_object", D.data.id["w"] > t, lambda a, t=t: a["w"] > t))
+            req["what"] = ("state", len(D.states) - 1)
+            return req, "state_fresh_object"
+        req["what"] = ("state", rng.choice([k for k in range(len(D.states)) if k != req["what"][1]]))
+        return req, "state"
+    if kind == "broadcast":
+        req["broadcast"] = not req["broadcast"]
+        return req, "broadcast"
+    if not scal:
+        return None
+    i = memo.setdefault("dim", rng.choice(scal))
+    if i not in scal:
+        return None
+    if kind == "scalar":
+        new = gen_bound(rng, world, G, D, i, "scalar")
+        if same_scalar_class(new, req["bounds"][i]):
+            return None
+        req["bounds"][i] = new
+        return req, ("scalar_contributing" if i in contrib else "scalar_noncontributing")
+    if kind == "type_only":
+        new = same_value_other_type(rng, req["bounds"][i])
+        if new is None:
+            return None
+        req["bounds"][i] = new
+        return req, "scalar_same_value_other_type"
+    if kind == "nudge":
+        # two bounds that agree to ~1e-6 of a pixel (relative 1e-9 .. 1e-15 of the bound) but straddle a pixel boundary
+        m = axis_to_source(world, G, D, i) or (1.0, 0.0, G.shape[i])
+        a, b, ns = m
+        edge = memo.setdefault("edge", rng.randrange(-1, ns) + 0.5)
+        delta = max(1e-6, 200 * world.eps)
+        side = memo["side"] = -memo.get("side", 1)
+        req["bounds"][i] = (edge + side * delta - b) / a
+        return req, ("nudge_across_pixel_edge_contributing" if i in contrib else "nudge_noncontributing")
+    return None
+
+
+def fault_call(ctx, world, prev, cache_id, kind):
+    """A call that must fail, made under the cache id: whatever it leaves behind must not matter afterwards."""
+    D, G = world.ds[prev["data"]], world.ds[prev["target"]]
+    bounds = list(prev["bounds"])
+    kw = {"target_data": G.data, "broadcast": prev["broadcast"], "cache_id": cache_id}
+    if prev["what"][0] == "att":
+        kw["target_cid"] = D.data.id[prev["what"][1]]
+    else:
+        kw["subset_state"] = D.states[prev["what"][1]][1]
+    if kind == "nsteps_zero":
+        i = ctx.rng.randrange(len(bounds))
+        bounds[i] = (0.0, 1.0, 0)
+    elif kind == "both_arguments":
+        kw["target_cid"] = D.data.id["w"]
+        kw["subset_state"] = D.states[0][1]
+    elif kind == "neither_argument":
+        kw.pop("target_cid", None)
+        kw.pop("subset_state", None)
+    elif kind == "short_bounds":
+        bounds = bounds[:-1]
+    elif kind == "foreign_attribute":
+        other = [X for X in world.ds.values() if X is not D][0]
+        kw.pop("subset_state", None)
+        kw["target_cid"] = other.data.id["w"]       # a main component of another dataset: not derivable through pixel links
+    try:
+        D.data.compute_fixed_resolution_buffer(bounds, **kw)
+        ctx.count("fault_call_%s_returned_normally" % kind)
+    except Exception as e:
+        ctx.count("fault_call_%s_%s" % (kind, exc_name(e)))
+    ctx.count("fault_calls")
+
+
+def change_links(ctx, world):
+    """Replace the links of one source by a different map (atomically with set_links or one by one)."""
+    rng = ctx.rng
+    cands = [X for X in (world.ds["A"], world.ds["B"]) if getattr(X, "links", None) and X.parent == "T"]
+    if world.mode != "axis" or not cands:
+        return None
+    X = rng.choice(cands)
+    T = world.ds["T"]
+    new_links, new_axis = [], []
+    for j, (k, a, b) in enumerate(X.axis):
+        a2 = rng.choice([s_ for s_ in (1.0, 2.0, 0.5, -1.0) if s_ != a] or [2.0])
+        b2 = rng.choice([0.0, 1.0, -1.0, float(X.shape[j] - 1)])
+        new_axis.append((k, a2, b2))
+        new_links.append(LinkTwoWay(T.data.pixel_component_ids[k], X.data.pixel_component_ids[j], Lin(a2, b2), LinInv(a2, b2)))
+    try:
+        if rng.random() < 0.5:
+            keep = [l for l in world.dc.external_links if not any(l is o for o in X.links)]
+            world.dc.set_links(keep + new_links)
+            how = "set_links"
+        else:
+            for l in X.links:
+                world.dc.remove_link(l)
+            for l in new_links:
+                world.dc.add_link(l)
+            how = "remove_add"
+    except Exception as e:
+        ctx.count("link_change_failed_%s" % exc_name(e))
+        return None
+    X.links = new_links
+    X.axis = new_axis
+    for j, (k, a, b) in enumerate(new_axis):
+        X.M[j, :] = 0
+        X.M[j, k] = a
+        X.c[j] = b
+    X.aligned = {}
+    world.links_changed = True
+    world.descr = dict(world.descr, links_changed=[X.name, how, [[k, a, b] for k, a, b in new_axis]])
+    ctx.count("link_changes_%s" % how)
+    return X
+
+
 def run_history(ctx, world, case_tag, resident):
     rng = ctx.rng
-    ids = ["c16:%s:0" % case_tag, "c16:%s:1" % case_tag]
+    ids = ["c16:%s:0" % case_tag, ("c16", case_tag, 1)]
     last = {}
     past = []
     nsteps = rng.randint(6, 20)
@@ -784,79 +1055,138 @@ def run_history(ctx, world, case_tag, resident):
     ctx.count("worlds_%s" % world.mode)
     if world.descr.get("dask"):
         ctx.count("worlds_with_dask_component")
-    for step_no in range(nsteps):
+    if world.descr.get("big"):
+        ctx.count("worlds_big")
+    if world.descr.get("far_axes"):
+        ctx.count("worlds_with_far_axes")
+    if world.descr.get("world_unit", 1.0) != 1.0 or world.descr.get("world_origin", 0.0) != 0.0:
+        ctx.count("worlds_world_mode_rescaled_units")
+    for X in world.ds.values():
+        for name in getattr(X, "layouts", []):
+            ctx.count("component_layout_%s" % name)
+    run = None
+    step_no = 0
+    attribute_only_tail = False
+    while step_no < nsteps:
         slot = 0 if rng.random() < 0.7 else 1
+        req = None
+        if run is not None:
+            slot = run["slot"]
+            prev = last.get(slot)
+            if run["left"] == 0:
+                req, step = copy_req(run["origin"]), "return_to_run_origin"
+                ctx.count("runs_completed_%s" % run["kind"])
+                run = None
+            else:
+                out = forced_mutation(rng, world, prev, run["kind"], run["memo"])
+                if out is None:
+                    run = None
+                else:
+                    req, step = out
+                    run["left"] -= 1
         prev = last.get(slot)
-        r = rng.random()
-        if prev is None or r < 0.12:
-            req, step = fresh_request(rng, world), "fresh"
-        elif r < 0.24 and past:
-            req, step = rng.choice(past), "replay_earlier"
-            req = dict(req)
-            req["bounds"] = list(req["bounds"])
-        elif r < 0.30:
-            req, step = dict(prev), "repeat_last"
-            req["bounds"] = list(prev["bounds"])
-        else:
-            req, step = mutate_request(rng, world, prev)
+        if req is None:
+            r = rng.random()
+            if prev is not None and r < 0.12 and not attribute_only_tail:
+                # start a run: three to five consecutive requests under one id in which only one aspect changes,
+                # then back to the request the run started from
+                kind = rng.choice(RUN_KINDS)
+                out = forced_mutation(rng, world, prev, kind, {})
+                if out is not None:
+                    run = {"kind": kind, "left": rng.randint(2, 4), "slot": slot, "origin": prev, "memo": {}}
+                    out = forced_mutation(rng, world, prev, kind, run["memo"])
+                if out is not None:
+                    req, step = out
+                    ctx.count("runs_started_%s" % kind)
+                else:
+                    run = None
+            if req is None:
+                if prev is None or r < 0.22:
+                    req, step = fresh_request(rng, world), "fresh"
+                elif r < 0.32 and past:
+                    req, step = copy_req(rng.choice(past)), "replay_earlier"
+                elif r < 0.38:
+                    req, step = copy_req(prev), "repeat_last"
+                else:
+                    req, step = mutate_request(rng, world, prev)
         if prev is None:
             step = "first"
-        D, G = world.ds[req["data"]], world.ds[req["target"]]
-        for b, n in zip(req["bounds"], G.shape):
-            ctx.count("bound_%s" % bound_class(b, n))
-        ctx.count("step_%s" % step)
-        ctx.count("what_%s" % (req["what"][1] if req["what"][0] == "att" else "mask_" + D.states[req["what"][1]][0]))
-        exp = expected(world, req)
-        none_target = rng.random() < 0.5
-        order = rng.random() < 0.5
-        before = cache_probe(ids[slot])
-        if order:
-            unc = execute(world, req, None, none_target)
-            cac = execute(world, req, ids[slot], none_target)
-        else:
-            cac = execute(world, req, ids[slot], none_target)
-            unc = execute(world, req, None, none_target)
-        if cac["kind"] == "array" and before is not None and cac["array"] is before:
-            ctx.count("evidence_array_cache_hits")
-        ctx.event(step_no, slot, step, describe_request(world, req), unc["kind"], cac["kind"])
-        clash = np_scalar_vs_range(req, resident.get(slot, []))
-        if clash:
-            ctx.count("requests_with_numpy_scalar_vs_range_under_id")
-        judge(ctx, world, req, exp, unc, False, step)
-        judge(ctx, world, req, exp, cac, True, step, clash)
-        # the second half of the statement, directly: the id never changes the outcome
-        ctx.count("cached_vs_uncached_pairs")
-        if exp["kind"] == "array" and unc["kind"] == "array":
-            ctx.count("cached_vs_uncached_pairs_linked")
-            if step in ("scalar_noncontributing",) and prev is not None:
-                ctx.count("wildcard_eligible_scalar_only_changes")
-            if step == "scalar_contributing":
-                ctx.count("relevant_scalar_only_changes")
-        if not same_result(unc, cac):
-            sig = {"kind": "cache_changes_result" if (unc["kind"] == cac["kind"] == "array") else "cache_changes_outcome",
-                   "request": "attribute" if req["what"][0] == "att" else "mask", "after": step,
-                   "link_mode": world.mode, "linked": exp["kind"] == "array",
-                   "numpy_scalar_vs_range_under_id": clash,
-                   "exc": exc_name(cac["exc"]) if cac["kind"] == "exc" else None}
-            ctx.violation(sig, {"world": world.descr, "request": describe_request(world, req),
-                                "previous_under_id": describe_request(world, prev) if prev else None,
-                                "uncached": unc.get("array", repr(unc.get("exc"))),
-                                "cached": cac.get("array", repr(cac.get("exc")))})
-        # requests that may still be resident in the caches under this id (a superset): the last one that returned an
-        # array with the id (array cache) and every request since the (data, target) pair under the id last changed
-        # (pixel-cache entries are per source axis and survive failed and partly translated requests)
-        res = resident.setdefault(slot, [None])
-        pair = (id(world), req["data"], req["target"])
-        if cac["kind"] == "array":
-            res[0] = req
-        if resident.get(("pair", slot)) != pair:
-            resident[("pair", slot)] = pair
-            del res[1:]
-        res.append(req)
+        if attribute_only_tail and req["what"][0] != "att":
+            req["what"] = ("att", "w")
+        if prev is not None and run is None and rng.random() < 0.06:
+            fault_call(ctx, world, prev, ids[slot], rng.choice(FAULTS))
+            step = step + "_after_failed_call" if step in ("repeat_last", "attribute", "scalar_contributing") else step
+        do_step(ctx, world, ids, slot, req, step, prev, resident, step_no)
         last[slot] = req
         past.append(req)
+        step_no += 1
+        if step_no == nsteps - 2 and not attribute_only_tail and rng.random() < 0.25:
+            # the last two requests follow a change of the links (data values untouched): repeat what is cached
+            changed = change_links(ctx, world)
+            if changed is not None:
+                attribute_only_tail = True
+                run = None
+                for sl in sorted(last):
+                    if last[sl]["what"][0] == "att":
+                        do_step(ctx, world, ids, sl, copy_req(last[sl]), "repeat_after_links_changed", last[sl], resident, step_no)
     if rng.random() < 0.002:
         ctx.sample({"world": world.descr, "last_request": describe_request(world, past[-1])})
+
+
+def do_step(ctx, world, ids, slot, req, step, prev, resident, step_no):
+    rng = ctx.rng
+    D, G = world.ds[req["data"]], world.ds[req["target"]]
+    for b, n in zip(req["bounds"], G.shape):
+        ctx.count("bound_%s" % bound_class(b, n))
+    ctx.count("step_%s" % step)
+    ctx.count("what_%s" % (req["what"][1] if req["what"][0] == "att" else "mask_" + D.states[req["what"][1]][0]))
+    exp = expected(world, req)
+    none_target = rng.random() < 0.5
+    order = rng.random() < 0.5
+    before = cache_probe(ids[slot])
+    if order:
+        unc = execute(world, req, None, none_target)
+        cac = execute(world, req, ids[slot], none_target)
+    else:
+        cac = execute(world, req, ids[slot], none_target)
+        unc = execute(world, req, None, none_target)
+    if cac["kind"] == "array" and before is not None and cac["array"] is before:
+        ctx.count("evidence_array_cache_hits")
+    ctx.event(step_no, slot, step, describe_request(world, req), unc["kind"], cac["kind"])
+    clash = np_scalar_vs_range(req, resident.get(slot, []))
+    if clash:
+        ctx.count("requests_with_numpy_scalar_vs_range_under_id")
+    judge(ctx, world, req, exp, unc, False, step)
+    judge(ctx, world, req, exp, cac, True, step, clash)
+    # the second half of the statement, directly: the id never changes the outcome
+    ctx.count("cached_vs_uncached_pairs")
+    if exp["kind"] == "array" and unc["kind"] == "array":
+        ctx.count("cached_vs_uncached_pairs_linked")
+        if step in ("scalar_noncontributing",) and prev is not None:
+            ctx.count("wildcard_eligible_scalar_only_changes")
+        if step == "scalar_contributing":
+            ctx.count("relevant_scalar_only_changes")
+    if not same_result(unc, cac):
+        sig = {"kind": "cache_changes_result" if (unc["kind"] == cac["kind"] == "array") else "cache_changes_outcome",
+               "request": "attribute" if req["what"][0] == "att" else "mask", "after": step,
+               "link_mode": world.mode, "linked": exp["kind"] == "array",
+               "numpy_scalar_vs_range_under_id": clash, "links_changed_under_id": bool(getattr(world, "links_changed", False)),
+               "exc": exc_name(cac["exc"]) if cac["kind"] == "exc" else None}
+        ctx.violation(sig, {"world": world.descr, "request": describe_request(world, req),
+                            "previous_under_id": describe_request(world, prev) if prev else None,
+                            "uncached": unc.get("array", repr(unc.get("exc"))),
+                            "cached": cac.get("array", repr(cac.get("exc")))})
+    # requests that may still be resident in the caches under this id (a superset): the last one that returned an
+    # array with the id (array cache) and every request since the (data, target) pair under the id last changed
+    # (pixel-cache entries are per source axis and survive failed and partly translated requests)
+    res = resident.setdefault(slot, [None])
+    pair = (id(world), req["data"], req["target"])
+    if cac["kind"] == "array":
+        res[0] = req
+    if resident.get(("pair", slot)) != pair:
+        resident[("pair", slot)] = pair
+        del res[1:]
+    res.append(req)
 
 
 # ---------------------------------------------------------------- viewer workload
@@ -904,7 +1234,7 @@ def viewer_expected(world, vs, layer_kind, X, what, query):
     else:
         full, blank = what[2](X.arrays).astype(float), 0.0
     dpos = [np.broadcast_to(p, grid[0].shape) for p in dpos]
-    variants, outside = resample(full, dpos, X.shape, blank)
+    variants, outside = resample(full, dpos, X.shape, blank, world.eps)
     tie = np.zeros(grid[0].shape, dtype=bool)
     for v in variants[1:]:
         tie |= ~((v == variants[0]) | (np.isnan(v) & np.isnan(variants[0])))
@@ -958,10 +1288,126 @@ def run_viewer(ctx, case_tag):
     ctx.count("viewer_histories")
     ctx.count("viewer_worlds_%s" % world.mode)
     nsteps = rng.randint(8, 16)
+    def query_layer(L, kind, step_no, reentrant=False):
+        ls, lkind, X, subset = L
+        R = world.by_data[id(vs.reference_data)]
+        xa, ya = vs.x_att.axis, vs.y_att.axis
+        qk = rng.choice(["none", "none", "view", "view1", "bounds"])
+        if qk == "none":
+            kwargs, query = {}, [slice(None), slice(None)]
+        elif qk == "view":
+            query = [rand_nonempty_slice(rng, R.shape[ya]), rand_nonempty_slice(rng, R.shape[xa])]
+            kwargs = {"view": list(query)}
+        elif qk == "view1":
+            query = [rand_nonempty_slice(rng, R.shape[ya]), slice(None)]
+            kwargs = {"view": [query[0]]}
+        else:
+            query = [rand_range(rng, R.shape[ya]), rand_range(rng, R.shape[xa])]
+            kwargs = {"bounds": list(query)}
+        if lkind == "data":
+            aname = ls.attribute.label
+            what = ("att", aname)
+        else:
+            k = sub_state_idx[X.name]
+            what = ("state", k, X.states[k][2])
+        exp = viewer_expected(world, vs, lkind, X, what, query)
+        try:
+            got = ls.get_sliced_data(**kwargs)
+            out = {"kind": "array", "array": got}
+        except Exception as e:
+            out = {"kind": "exc", "exc": e}
+        agg_names = [getattr(s.function, "__name__", "?") if hasattr(s, "function") else None for s in vs.slices]
+        descr = {"reference": R.name, "x_axis": xa, "y_axis": ya,
+                 "slices": [[s.slice.start, s.slice.stop, a] if a else int(s) for s, a in zip(vs.slices, agg_names)],
+                 "layer": [lkind, X.name, list(what[:2])], "query": [qk, [describe_q(q) for q in query]]}
+        ctx.event(step_no, kind, descr, out["kind"])
+        sel = None
+        if lkind == "subset":
+            sel = "backward_slices" if "backward" in X.states[what[1]][0] else "other"
+        sig = {"via": "get_sliced_data", "layer": lkind, "query": qk, "link_mode": world.mode, "after": kind, "reentrant": reentrant,
+               "request": "attribute" if lkind == "data" else "mask", "selection": sel,
+               "dask_path": bool(X.dask and lkind == "subset"),
+               "aggregated": bool(exp.get("aggregated")), "transposed": ya > xa,
+               "reference_is_layer_data": R is X}
+        if exp["kind"] == "unlinked":
+            if out["kind"] == "exc":
+                ctx.count("viewer_out_of_domain_unlinked_%s" % exc_name(out["exc"]))
+            else:
+                ctx.count("oracle_model_says_unlinked_but_array_returned")
+            return
+        if out["kind"] == "exc":
+            if exp["may_raise_incompatible"] and isinstance(out["exc"], IncompatibleDataException):
+                ctx.count("viewer_documented_incompatible_exception")
+                return
+            if reentrant:
+                ctx.count("viewer_reentrant_read_raised_%s" % exc_name(out["exc"]))   # transient state: tallied only
+                return
+            sig.update(kind="exception", exc=exc_name(out["exc"]))
+            ctx.violation(sig, {"world": world.descr, "state": descr, "error": repr(out["exc"])[:300]})
+            return
+        got = np.asarray(out["array"]).astype(float)
+        e = exp["array"]
+        nontrivial = bool((~exp["outside"]).any())
+        ctx.evaluation([world.descr, descr], nontrivial)
+        ctx.count("viewer_planes_compared")
+        ctx.count("viewer_planes_%s_%s" % (lkind, qk))
+        if lkind == "subset":
+            ctx.count("viewer_subset_planes_%s" % X.states[what[1]][0])
+        if exp["aggregated"]:
+            ctx.count("viewer_planes_aggregated")
+        if ya > xa:
+            ctx.count("viewer_planes_transposed")
+        if got.shape != e.shape:
+            sig.update(kind="shape_mismatch", transposed_shape_matches=got.shape == e.shape[::-1])
+            ctx.violation(sig, {"world": world.descr, "state": descr, "got_shape": list(got.shape),
+                                "expected_shape": list(e.shape)})
+            return
+        if exp["aggregated"]:
+            ok = np.isclose(got, e, rtol=1e-9, atol=1e-12, equal_nan=True) | ((got == e))
+        else:
+            ok = (got == e) | (np.isnan(got) & np.isnan(e))
+        ok |= exp["tie"]
+        if exp["tie"].any():
+            ctx.count("viewer_planes_with_tie_samples_excluded")
+        if not ok.all():
+            bad = ~ok
+            where_out = bool((bad & exp["outside"]).any())
+            where_in = bool((bad & ~exp["outside"]).any())
+            sig.update(kind="value_mismatch", where="outside_not_blank" if (where_out and not where_in)
+                       else ("inside_wrong" if not where_out else "both"))
+            ctx.violation(sig, {"world": world.descr, "state": descr, "got": got, "expected": e})
+
+    # re-entrancy: a listener that reads a layer's plane while the viewer state is being changed
+    reent = {"depth": 0, "kind": "?", "step": -1}
+
+    def on_change(*args):
+        if reent["depth"] > 0:
+            return
+        reent["depth"] += 1
+        try:
+            R_ = world.by_data.get(id(vs.reference_data))
+            sl = vs.slices
+            consistent = (R_ is not None and vs.x_att is not None and vs.y_att is not None and
+                          vs.x_att.axis != vs.y_att.axis and len(sl) == R_.ndim and
+                          vs.x_att in R_.data.pixel_component_ids and vs.y_att in R_.data.pixel_component_ids and
+                          all(hasattr(x, "function") or 0 <= x < n for x, n in zip(sl, R_.shape)))
+            if not consistent:
+                ctx.count("viewer_reentrant_reads_skipped_transient_state")
+                return
+            ctx.count("viewer_reentrant_reads")
+            query_layer(layers[rng.randrange(len(layers))], reent["kind"], reent["step"], reentrant=True)
+        finally:
+            reent["depth"] -= 1
+    for name in ("slices", "x_att", "y_att"):
+        vs.add_callback(name, on_change)
+    for L in layers:
+        if L[1] == "data":
+            L[0].add_callback("attribute", on_change)
     for step_no in range(nsteps):
         R = world.by_data[id(vs.reference_data)]
         kind = rng.choice(["slices", "slices", "slices", "aggregate", "xatt", "yatt", "attribute", "subset_state",
                            "reference", "query_only", "query_only"])
+        reent["kind"], reent["step"] = kind, step_no
         try:
             if kind in ("slices", "aggregate"):
                 new = []
@@ -981,7 +1427,7 @@ def run_viewer(ctx, case_tag):
                 vs.y_att = rng.choice(R.data.pixel_component_ids)
             elif kind == "attribute":
                 L = rng.choice([l for l in layers if l[1] == "data"])
-                L[0].attribute = L[2].data.id[rng.choice(["v", "w", "i", "der"])]
+                L[0].attribute = L[2].data.id[rng.choice(L[2].atts)]
             elif kind == "subset_state":
                 L = rng.choice([l for l in layers if l[1] == "subset"])
                 k = rng.randrange(len(L[2].states))
@@ -1002,83 +1448,8 @@ def run_viewer(ctx, case_tag):
             continue
         xa, ya = vs.x_att.axis, vs.y_att.axis
         # one query per layer
-        for ls, lkind, X, subset in layers:
-            qk = rng.choice(["none", "none", "view", "view1", "bounds"])
-            if qk == "none":
-                kwargs, query = {}, [slice(None), slice(None)]
-            elif qk == "view":
-                query = [rand_nonempty_slice(rng, R.shape[ya]), rand_nonempty_slice(rng, R.shape[xa])]
-                kwargs = {"view": list(query)}
-            elif qk == "view1":
-                query = [rand_nonempty_slice(rng, R.shape[ya]), slice(None)]
-                kwargs = {"view": [query[0]]}
-            else:
-                query = [rand_range(rng, R.shape[ya]), rand_range(rng, R.shape[xa])]
-                kwargs = {"bounds": list(query)}
-            if lkind == "data":
-                aname = ls.attribute.label
-                what = ("att", aname)
-            else:
-                k = sub_state_idx[X.name]
-                what = ("state", k, X.states[k][2])
-            exp = viewer_expected(world, vs, lkind, X, what, query)
-            try:
-                got = ls.get_sliced_data(**kwargs)
-                out = {"kind": "array", "array": got}
-            except Exception as e:
-                out = {"kind": "exc", "exc": e}
-            agg_names = [getattr(s.function, "__name__", "?") if hasattr(s, "function") else None for s in vs.slices]
-            descr = {"reference": R.name, "x_axis": xa, "y_axis": ya,
-                     "slices": [[s.slice.start, s.slice.stop, a] if a else int(s) for s, a in zip(vs.slices, agg_names)],
-                     "layer": [lkind, X.name, list(what[:2])], "query": [qk, [describe_q(q) for q in query]]}
-            ctx.event(step_no, kind, descr, out["kind"])
-            sig = {"via": "get_sliced_data", "layer": lkind, "query": qk, "link_mode": world.mode, "after": kind,
-                   "aggregated": bool(exp.get("aggregated")), "transposed": ya > xa,
-                   "reference_is_layer_data": R is X}
-            if exp["kind"] == "unlinked":
-                if out["kind"] == "exc":
-                    ctx.count("viewer_out_of_domain_unlinked_%s" % exc_name(out["exc"]))
-                else:
-                    ctx.count("oracle_model_says_unlinked_but_array_returned")
-                continue
-            if out["kind"] == "exc":
-                if exp["may_raise_incompatible"] and isinstance(out["exc"], IncompatibleDataException):
-                    ctx.count("viewer_documented_incompatible_exception")
-                    continue
-                sig.update(kind="exception", exc=exc_name(out["exc"]))
-                ctx.violation(sig, {"world": world.descr, "state": descr, "error": repr(out["exc"])[:300]})
-                continue
-            got = np.asarray(out["array"]).astype(float)
-            e = exp["array"]
-            nontrivial = bool((~exp["outside"]).any())
-            ctx.evaluation([world.descr, descr], nontrivial)
-            ctx.count("viewer_planes_compared")
-            ctx.count("viewer_planes_%s_%s" % (lkind, qk))
-            if lkind == "subset":
-                ctx.count("viewer_subset_planes_%s" % X.states[what[1]][0])
-            if exp["aggregated"]:
-                ctx.count("viewer_planes_aggregated")
-            if ya > xa:
-                ctx.count("viewer_planes_transposed")
-            if got.shape != e.shape:
-                sig.update(kind="shape_mismatch", transposed_shape_matches=got.shape == e.shape[::-1])
-                ctx.violation(sig, {"world": world.descr, "state": descr, "got_shape": list(got.shape),
-                                    "expected_shape": list(e.shape)})
-                continue
-            if exp["aggregated"]:
-                ok = np.isclose(got, e, rtol=1e-9, atol=1e-12, equal_nan=True) | ((got == e))
-            else:
-                ok = (got == e) | (np.isnan(got) & np.isnan(e))
-            ok |= exp["tie"]
-            if exp["tie"].any():
-                ctx.count("viewer_planes_with_tie_samples_excluded")
-            if not ok.all():
-                bad = ~ok
-                where_out = bool((bad & exp["outside"]).any())
-                where_in = bool((bad & ~exp["outside"]).any())
-                sig.update(kind="value_mismatch", where="outside_not_blank" if (where_out and not where_in)
-                           else ("inside_wrong" if not where_out else "both"))
-                ctx.violation(sig, {"world": world.descr, "state": descr, "got": got, "expected": e})
+        for L in layers:
+            query_layer(L, kind, step_no)
 
 
 def describe_q(q):
@@ -1133,8 +1504,8 @@ def floors(counters, tier):
     for k in ("what_mask_slice_backward", "what_mask_pixelstate_backward"):
         if c(k, 0) < 30:
             out.append("fewer than 30 mask requests with %s" % k)
-    if c("what_mask_slice_backward_on_aligned_permuted", 0) + c("what_mask_slice_backward_on_aligned_same_order", 0) < 20:
-        out.append("fewer than 20 mask requests with a backward slice state defined on a pixel-aligned dataset")
+    if c("what_mask_slice_backward_on_aligned_permuted", 0) + c("what_mask_slice_backward_on_aligned_same_order", 0) < 8:
+        out.append("fewer than 8 mask requests with a backward slice state defined on a pixel-aligned dataset")
     if sum(v for k, v in counters.items() if k.startswith("viewer_subset_planes_") and "backward" in k) < 10:
         out.append("fewer than 10 subset-layer planes with a backward slice state")
     if c("viewer_planes_compared", 0) < 100:
@@ -1143,6 +1514,20 @@ def floors(counters, tier):
               "viewer_planes_data_bounds"):
         if c(k, 0) < 5:
             out.append("fewer than 5 %s" % k)
+    # adversarial widening round: classes that must actually have been exercised
+    need = {"runs_completed_attribute": 4, "runs_completed_scalar": 4, "runs_completed_broadcast": 4, "runs_completed_state": 3,
+            "step_nudge_across_pixel_edge_contributing": 8, "step_scalar_same_value_other_type": 8, "fault_calls": 20,
+            "worlds_with_far_axes": 5, "worlds_big": 3, "worlds_world_mode_rescaled_units": 4,
+            "dask_requests_strictly_inside_first_index_positive": 8, "requests_with_bounds_beyond_1e4": 30,
+            "component_layout_fortran": 10, "component_layout_strided": 10, "component_layout_reversed": 10,
+            "what_u8": 8, "what_f4": 8, "what_be": 8, "what_bc": 8, "what_mask_pixel_of_linked_master": 15,
+            "what_mask_selects_nothing": 8, "what_mask_selects_all": 8, "viewer_reentrant_reads": 10,
+            "samples_all_inside": 100, "samples_partly_outside": 100}
+    for k, n in sorted(need.items()):
+        if c(k, 0) < n:
+            out.append("fewer than %d %s" % (n, k))
+    if c("link_changes_set_links", 0) + c("link_changes_remove_add", 0) < 4:
+        out.append("fewer than 4 histories ending with a change of the links")
     if c("oracle_model_says_unlinked_but_array_returned", 0) > 0:
         out.append("the oracle's link model disagrees with glue about which datasets are linked (harness defect)")
     return out
